@@ -845,6 +845,24 @@ Definition pkg_vars_ok (vars : list (string * string * list string)) : bool :=
 Definition methods_readonly (except : list string) (ms : list (string * list string)) : bool :=
   forallb (fun m => match snd m with [] => true | _ => existsb (String.eqb (fst m)) except end) ms.
 
+(* assignments through a pointer that may be the shared cache entry (see the translator): the only one
+   allowed is loadDocumentFromHTTP filling `doc.Document` when it is still nil after following an
+   alternate link (a cached document always has its Document, it is set before cacheEngine.Set) *)
+Definition allowed_shared_writes : list (string * string) := [("loadDocumentFromHTTP", "doc.Document")].
+
+Definition shared_writes_ok (ms : list (string * list string)) : bool :=
+  forallb (fun m => forallb (fun w => existsb (fun a => String.eqb (fst a) (fst m) && String.eqb (snd a) w)
+                                              allowed_shared_writes) (snd m)) ms.
+
+Lemma shared_writes_ok_spec : forall ms, shared_writes_ok ms = true ->
+  forall m ws w, In (m, ws) ms -> In w ws -> In (m, w) allowed_shared_writes.
+Proof.
+  intros ms H m ws w Hin Hw. unfold shared_writes_ok in H. rewrite forallb_forall in H.
+  specialize (H _ Hin). cbn [fst snd] in H. rewrite forallb_forall in H. specialize (H _ Hw).
+  apply existsb_exists in H. destruct H as ([m' w'] & Hin' & Heq). cbn [fst snd] in Heq.
+  apply andb_true_iff in Heq. destruct Heq as [H1 H2]. apply String.eqb_eq in H1, H2. subst. exact Hin'.
+Qed.
+
 Lemma pkg_vars_ok_spec : forall vars, pkg_vars_ok vars = true ->
   forall p v ws w, In (p, v, ws) vars -> In w ws -> In (p, v, w) allowed_writers.
 Proof.
